@@ -51,6 +51,12 @@ def gen(rng, tier):
             elif i % 6 == 1:
                 c['little'] = True      # the same file as a little-endian machine writes it, opened with endian='little'
         out.append(c)
+    for y, j, h in ((2000, 365, 22), (2000, 366, 22), (2000, 366, 23), (2100 - 100, 365, 23), (1996, 366, 23), (2020, 366, 22)):
+        # the end of a century leap year and of ordinary leap years, written from an input without ETFLAG (the writer
+        # computes the end of every step itself)
+        c = camx.gen_uamiv_at(rng, y, j, h, with_etflag=False, tstep=1)
+        c.update(kind='write', vdtype='f')
+        out.append(c)
     for name in camx.NAMES:
         # every NAME with several layers and several steps written on every run (3-D gridded emissions included)
         c = camx.gen_uamiv(rng)
@@ -98,7 +104,10 @@ def gen(rng, tier):
     from ..bpchfmt import gen as _bgen
     for i in range(n // 8):
         c = _bgen(rng)
-        c['drop_line'] = False
+        # every other file: the first block's (tracer + category offset) has no line in tracerinfo.dat (the reader names it
+        # by number and does not scale it, whatever the plain tracer of that number says)
+        c['drop_line'] = (i % 2 == 1)
+        c['tslice'] = rng.choice([[None, None, 2], [1, None, None], [None, None, -1], [-1, None, None]])
         c['kind'] = 'bpch'
         out.append(c)
     return out
